@@ -81,6 +81,9 @@ def judge(prop, fam, opts, script, r, res, ctx, levels=None):
                     want = set((p, a) for p, c, a in pl)
                     if any(t is None for _, t in got):
                         cov['conflict_with_unannounced_var'] += 1; break
+                    if not all(t.startswith('(<= ') for _, t in got):
+                        # in a combined logic the conflict handed over may be the one of the UF solver (equalities, UF atoms): not this record's
+                        cov['next_conflict_from_another_solver'] += 1; break
                     if got != want:
                         viol('bad_farkas:literals_differ_from_conflict', 'getConflict', 'certificate over %s, conflict clause over %s' % (sorted(want), sorted(got)))
                     cov['farkas_matched_with_conflict'] += 1
